@@ -17,11 +17,12 @@ LEVEL = "exploration"
 RULE = ("(a) histories of 2-8 connections opening, calling and closing against registered classes of each mode x instance shapes {truthy, falsy via "
         "__len__, falsy via __bool__, __eq__ always True with constant __hash__} x creator {none, ok, raising, wrong type}; first calls on "
         "'single' classes released by a barrier with a 1-10 ms constructor; both server types. (b) 2-3 controlled threads calling the real "
-        "Daemon._getInstance: every schedule up to a preemption bound, then random walks. distinct = (mode, shape, creator, history/schedule); "
+        "Daemon._getInstance: every schedule up to a preemption bound, then random walks. (c) the same class registered in two daemons of one "
+        "process and in a third started later: instances per daemon / per (daemon, connection). distinct = (mode, shape, creator, history/schedule); "
         "non-trivial = more than one connection or thread involved")
 ASSUMPTIONS = ["a slow constructor (sleep) is a legitimate application behaviour that widens the race window without touching Pyro",
                "scheduling points = source lines of Daemon._getInstance (and its nested createInstance) only"]
-REQUIRED_REACH = ["single_ok", "session_ok", "percall_ok", "creator_counts_ok", "failing_creator_ok", "racing_first_calls", "session_instances_dropped", "schedules_explored"]
+REQUIRED_REACH = ["single_ok", "session_ok", "percall_ok", "creator_counts_ok", "failing_creator_ok", "racing_first_calls", "session_instances_dropped", "schedules_explored", "multi_daemon_ok"]
 SHARD_TIMEOUT = {"quick": 240, "thorough": 2800}
 SHAPES = ["truthy", "falsy_len", "falsy_bool", "eq_always"]
 CREATORS = ["none", "ok", "raises", "wrongtype"]
@@ -232,6 +233,90 @@ def socket_case(fx, mode, shape, creator, nconn, ncalls, rec, r, sername, race):
         fx.daemon.unregister(objid)
 
 
+def multi_daemon_case(fxs, make_fx, mode, shape, creator, rec, r, sername):
+    """'one instance per DAEMON': the same class registered in several daemons of one process (side by side, and one started after another
+    was shut down); every call returns (instance serial, connection serial)"""
+    P = fxs[0].P
+    cls, book = make_class(P, mode, shape, creator, 0.0)
+    objid = "mcls%d" % r.randrange(10 ** 9)
+    pay = {"multi": True, "mode": mode, "shape": shape, "creator": creator, "serializer": sername, "servertype": fxs[0].servertype}
+    rec.case(("multi", mode, shape, creator, sername, fxs[0].servertype), nontrivial=True, sample=pay if rec.evaluations % 40 == 7 else None)
+    served = {}       # daemon index -> list of (instance serial, connection serial)
+    errors = []
+
+    def calls_on(k, fx, nconn, ncalls):
+        def client():
+            try:
+                for c in range(nconn):
+                    with fx.proxy(objid, serializer=sername, timeout=15.0) as p:
+                        for i in range(ncalls):
+                            served.setdefault(k, []).append(tuple(p.who(i)))
+            except Exception as x:
+                errors.append(x)
+        t = threading.Thread(target=client, daemon=True)
+        t.start()
+        t.join(30)
+    late = None
+    try:
+        for fx in fxs:
+            fx.daemon.register(cls, objid)
+        order = [0, 1, 0, 1] if r.random() < 0.5 else [1, 0, 0, 1]
+        for k in order:
+            calls_on(k, fxs[k], r.randrange(1, 3), r.randrange(1, 3))
+        # a daemon started later in the same process (after the others served the class) gets its own instance too
+        late = make_fx()
+        late.daemon.register(cls, objid)
+        calls_on(2, late, 2, 2)
+        if errors:
+            rec.inconc("client failed in the harness: %r" % (errors[0],))
+            return
+        with book.lock:
+            created, ccalls = list(book.created), book.creator_calls
+        per_daemon = {k: {i for i, _ in v} for k, v in served.items()}
+        if mode == "single":
+            bad = {k: sorted(v) for k, v in per_daemon.items() if len(v) != 1}
+            if bad:
+                rec.violation("single-mode-multiple-instances:" + shape, "single/%s: daemon(s) served one class by several instances: %r" % (shape, bad), pay)
+                return
+            owners = {}
+            for k, v in per_daemon.items():
+                owners.setdefault(next(iter(v)), []).append(k)
+            shared = {i: ks for i, ks in owners.items() if len(ks) > 1}
+            if shared or len(created) != len(per_daemon):
+                rec.violation("single-instance-shared-between-daemons", "single/%s/%s: %d daemons of one process serve the same class, %d instance(s) were constructed; "
+                              "instance -> daemons served: %r (one instance per daemon expected)" % (shape, creator, len(per_daemon), len(created), owners), pay)
+                return
+            if creator == "ok" and ccalls != len(per_daemon):
+                rec.violation("creator-call-count", "single/%s: creator invoked %d times for %d daemons" % (shape, ccalls, len(per_daemon)), pay)
+                return
+        elif mode == "session":
+            conns = {}
+            for k, v in served.items():
+                for inst, conn in v:
+                    conns.setdefault((k, conn), set()).add(inst)
+            owners = {}
+            for key, insts in conns.items():
+                for inst in insts:
+                    owners.setdefault(inst, set()).add(key)
+            if any(len(v) != 1 for v in conns.values()) or any(len(v) != 1 for v in owners.values()) or len(created) != len(conns):
+                rec.violation("session-instance-shared-between-connections", "session/%s over several daemons: connection -> instances %r; %d constructed" % (shape, conns, len(created)), pay)
+                return
+        else:
+            n = sum(len(v) for v in served.values())
+            if len(created) != n or len({i for v in served.values() for i, _ in v}) != n:
+                rec.violation("percall-instance-reused", "percall/%s over several daemons: %d calls, %d constructed" % (shape, n, len(created)), pay)
+                return
+        rec.count("multi_daemon_ok")
+    finally:
+        for fx in fxs:
+            try:
+                fx.daemon.unregister(objid)
+            except Exception:
+                pass
+        if late is not None:
+            late.stop()
+
+
 # ---- part (b): controlled scheduler on Daemon._getInstance ------------------------------------------------
 class FakeConn:
     def __init__(self, n):
@@ -331,10 +416,15 @@ def run_shard(shard, rec):
             for creator in (["none", "ok"] if shard["mode"] == "single" else ["none"]) + (["raises"] if shape == "truthy" else []):
                 explore(P, shard["mode"], shape, creator, shard["nthreads"], shard["bound"], shard["nrandom"], rec, r)
         return
-    fx = fixture.Fixture(servertype=shard["servertype"], COMMTIMEOUT=0.0, THREADPOOL_SIZE=40, THREADPOOL_SIZE_MIN=2)
+    make_fx = lambda: fixture.Fixture(servertype=shard["servertype"], COMMTIMEOUT=0.0, THREADPOOL_SIZE=40, THREADPOOL_SIZE_MIN=2)
+    fx = make_fx()
+    fx2 = make_fx()
     try:
         mode = shard["mode"]
         for rep in range(shard["reps"]):
+            for shape in SHAPES:
+                for creator in ("none", "ok"):
+                    multi_daemon_case([fx, fx2], make_fx, mode, shape, creator, rec, r, r.choice(fixture.SERIALIZERS))
             for shape in SHAPES:
                 for creator in CREATORS:
                     for race in ((True, False) if mode == "single" else (False,)):
@@ -347,6 +437,7 @@ def run_shard(shard, rec):
                 rec.violation("server-thread-fault", text, None)
     finally:
         fx.stop()
+        fx2.stop()
 
 
 def replay(payload, rec):
@@ -357,6 +448,15 @@ def replay(payload, rec):
         rec.case(("replay", repr(payload)[:100]))
         print("schedule:", res.trace)
         check_sched(P, payload["mode"], payload["shape"], payload["creator"], payload["nthreads"], rec, sc, res, got, book, payload)
+        return
+    if payload.get("multi"):
+        make_fx = lambda: fixture.Fixture(servertype=payload["servertype"], COMMTIMEOUT=0.0, THREADPOOL_SIZE=40, THREADPOOL_SIZE_MIN=2)
+        fxs = [make_fx(), make_fx()]
+        try:
+            multi_daemon_case(fxs, make_fx, payload["mode"], payload["shape"], payload["creator"], rec, r, payload["serializer"])
+        finally:
+            for f in fxs:
+                f.stop()
         return
     fx = fixture.Fixture(servertype=payload["servertype"], COMMTIMEOUT=0.0, THREADPOOL_SIZE=40, THREADPOOL_SIZE_MIN=2)
     try:
